@@ -387,6 +387,7 @@ def run_case(case):
                 if c.get('victim'):
                     o['victim_exists'] = (S / 'victim').exists()
             o['post'] = read_tree(local_root) if local_root is not None else {}
+            o['calls'] = list(backend.rec)          # in the order the calls were made (tasks interleave)
             o['trace'] = sorted(backend.rec)
             o['chunks'] = sorted(backend.chunks, key=str)
             o['store_after'] = store_now()
@@ -491,6 +492,25 @@ def compare(case, obs, model):
         if case['backend'] == 'local' and obs.get('dirs') != sorted(model.get('dirs', [])):
             diffs.append(('directories of the local repository after the scenario', {'impl': obs.get('dirs'), 'model': model.get('dirs')}))
     return diffs
+
+
+def schedule_requests(case, obs):
+    """for every successful upload with distinct names: the OBSERVED order of backend calls as a schedule of the gathered tasks
+    (`runSchedule`) -> [(command index, request, expected)]"""
+    out = []
+    before = dict(case['store'])
+    for i, (c, o) in enumerate(zip(case['cmds'], obs['cmds'])):
+        if c['cmd'] == 'upload' and o['error'] is None and o['out'] and 'files' in o['out']:
+            root = o['local_root']
+            tree_abs = {root + '/' + k: v for k, v in o['pre'].items()}
+            files = o['out']['files']
+            names = [derive_name(o['cwd'], f) for f in files]
+            if len(set(names)) == len(names):
+                req = {'op': 'store.cmd.schedule', 'store': sorted([k, v] for k, v in before.items()), 'items': [[n, tree_abs[f]] for n, f in zip(names, files)],
+                       'skip_existing': c['skip_existing'], 'schedule': [x.split(' ', 1)[1] for x in o['calls']]}
+                out.append((i, req, {'calls': o['calls'], 'done': True, 'state': sorted([k, v] for k, v in o['store_after'].items())}))
+        before = dict(o['store_after'])
+    return out
 
 
 # ------------------------------------------------------------------------------------------------ direct oracle
